@@ -2,7 +2,7 @@ SPEC = {
     'id': 'C37',
     'harness': 'hC37',
     'coq_dir': 'C37',
-    'claimed': False,
+    'claimed': True,
     'theorems': [
         'C37_cbc_roundtrip', 'C37_cbc_legacy_roundtrip', 'C37_formats_disjoint', 'C37_format_test_exact',
         'C37_cbc_roundtrip_anylen_refuted', 'C37_cbc_legacy_anylen_refuted',
